@@ -345,6 +345,12 @@ struct Mon {
       x += nn;
       if (get(x) != e) ctx.viol("C05", std::string("plus-assign:") + Al<T>::name(), orc::str(a) + " += " + S(n));
       ctx.stat("C05.evaluations");
+      if (orc::fits64(-n)) {
+        T y = ta;
+        y -= static_cast<int64_t>(-n);
+        if (get(y) != e) ctx.viol("C05", std::string("minus-assign:") + Al<T>::name(), orc::str(a) + " -= " + S(-n));
+        ctx.stat("C05.evaluations");
+      }
     }
     if (nn > 1000 || nn < -1000 || !(a.y > -100000 && a.y < 100000)) {
       nt.insert(sup::mix(sup::mix(sup::fnvs(orc::str(a)), (uint64_t)nn), L));
@@ -430,6 +436,13 @@ struct Mon {
           if (get(r) != e)
             ctx.viol("C05", std::string("sub-int64-min:") + Al<T>::name(),
                      orc::str(lo) + " - INT64_MIN expected " + orc::str(e) + " got " + orc::str(get(r)));
+          T r2 = tl;
+          ctx.set_case("class=random op=civil_%s %s -= INT64_MIN", Al<T>::name(), orc::str(lo).c_str());
+          r2 -= INT64_MIN;
+          ctx.stat("C05.evaluations");
+          if (get(r2) != e)
+            ctx.viol("C05", std::string("minus-assign-int64-min:") + Al<T>::name(),
+                     orc::str(lo) + " -= INT64_MIN expected " + orc::str(e) + " got " + orc::str(get(r2)));
         }
       }
       // pairs
@@ -579,6 +592,47 @@ static std::vector<i128> cycle_ks(bool thorough, const char* prop) {
   return ks;
 }
 
+// Compile-time panel: the same constructor evaluated in a constant expression and at run time must agree (and both with
+// the oracle). Arguments reach the run-time call through volatile so that the compiler cannot fold it.
+#define VERIF_CX_CASES(X)                                                                                                   \
+  X(2016, 3, 0, 0, 0, 0) X(2015, 3, 400, 0, 0, 0) X(2015, 12, 31 + 366, 0, 0, 0) X(2001, 14, -366, 25, -61, 3661)               \
+  X(2000, 2, 29 + 365, 0, 0, 0) X(1999, 3, 367, 0, 0, 0) X(2100, 3, 1 + 365, 23, 59, 60) X(1900, 4, 800, 0, 0, 0)               \
+  X(2400, 1, 146097 + 1, 0, 0, 0) X(2016, 12, 500, 48, 0, 0) X(-1, 3, 366, 0, 0, 0) X(-400, 5, 1000, 0, 0, 0)                   \
+  X(2019, 3, 366 + 365, 0, 0, 0) X(2020, 3, 366, 0, 0, 0) X(2023, 11, 61 + 366, 0, 0, 86400) X(1, 1, 0, 0, 0, -1)               \
+  X(2015, 6, -100000, -2400000, 0, 0) X(2015, 1, 258, 0, 0, 0) X(1970, 13, 32, 24, 60, 60) X(2003, 7, 36525 * 3, 0, 0, 0)        \
+  X(2024, 2, 30, 0, 0, 0) X(2024, 3, -1, 0, 0, 0) X(2023, 3, 0, 0, 0, 0) X(9999, 12, 32, 0, 0, 0) X(2015, 10, 366 * 5, 0, 0, 0)
+template <typename T>
+static void cx_check(sup::Ctx& ctx, const T& at_compile_time, int64_t y, int64_t m, int64_t d, int64_t H, int64_t M, int64_t S2) {
+  volatile int64_t vy = y, vm = m, vd = d, vH = H, vM = M, vS = S2;
+  T at_run_time(vy, vm, vd, vH, vM, vS);
+  Civ e = align(orc::normalize(y, m, d, H, M, S2), Al<T>::lvl);
+  ctx.stat("C04.evaluations", 2);
+  ctx.stat("C04.constexpr_cases");
+  if (get(at_compile_time) != e || get(at_run_time) != e)
+    ctx.viol("C04", std::string("constexpr-vs-runtime:") + Al<T>::name(),
+             "civil_" + std::string(Al<T>::name()) + "(" + std::to_string(y) + "," + std::to_string(m) + "," + std::to_string(d) + "," + std::to_string(H) + "," + std::to_string(M) +
+                 "," + std::to_string(S2) + ") oracle " + orc::str(e) + " constant-evaluated " + orc::str(get(at_compile_time)) + " run-time " + orc::str(get(at_run_time)));
+}
+static void c04_constexpr_panel(sup::Ctx& ctx) {
+#if defined(__cpp_constexpr) && __cpp_constexpr >= 201304L
+#define VERIF_CX_ONE(y, m, d, H, M, S2)                                   \
+  {                                                                        \
+    constexpr cctz::civil_second cs_(y, m, d, H, M, S2);                   \
+    cx_check<cctz::civil_second>(ctx, cs_, y, m, d, H, M, S2);             \
+    constexpr cctz::civil_day cd_(y, m, d, H, M, S2);                      \
+    cx_check<cctz::civil_day>(ctx, cd_, y, m, d, H, M, S2);                \
+    constexpr cctz::civil_month cm_(y, m, d, H, M, S2);                    \
+    cx_check<cctz::civil_month>(ctx, cm_, y, m, d, H, M, S2);              \
+    constexpr cctz::civil_year cy_(y, m, d, H, M, S2);                     \
+    cx_check<cctz::civil_year>(ctx, cy_, y, m, d, H, M, S2);               \
+  }
+  VERIF_CX_CASES(VERIF_CX_ONE)
+#undef VERIF_CX_ONE
+#else
+  (void)ctx;
+#endif
+}
+
 int main(int argc, char** argv) {
   sup::Args a(argc, argv);
   std::string st = orc::selftest_calendar();
@@ -644,6 +698,7 @@ int main(int argc, char** argv) {
       if (prop == "C17") m.nt.clear(), ctx.stat("C17.distinct_nontrivial", orc::leap(y) ? 366 : 365);
     } else {
       if (prop == "C04") {
+        if (c == ncycle) c04_constexpr_panel(ctx);
         m.c04_random(chunk * 4 / 5 / 6);  // six types per tuple
         m.c04_conversions(chunk / 5 / 42);
       } else if (prop == "C05") {
